@@ -67,4 +67,7 @@ theorem canon_block_loop (bs : List Bytes) (h : UInt64 × UInt64) :
       | k1 :: k2 :: rest => exact canon_block_step h b k1 k2 rest hw 0
     rw [this, ih]
 
+/-- non-vacuity of `canon_block_step`: a 16-byte block has two little-endian words -/
+example : ∃ k1 k2 rest, wordsLE64 ((List.range 16).map UInt8.ofNat) = k1 :: k2 :: rest := ⟨_, _, _, rfl⟩
+
 end IsalVerif.MurC
